@@ -33,28 +33,28 @@ theorem firstAppearance_head (c : Char) (cs : List Char) :
 /-! ### allele index ↔ allele character -/
 
 theorem alleleIndex_of_mem {als : List Char} {c : Char} (h : c ∈ als) :
-    alleleIndex als c = ((als.idxOf c : ℕ) : ℤ) := by
-  simp [alleleIndex, h]
+    allelicIndex als c = ((als.idxOf c : ℕ) : ℤ) := by
+  simp [allelicIndex, h]
 
 theorem alleleIndex_nonneg_lt {als : List Char} {c : Char} (h : c ∈ als) :
-    0 ≤ alleleIndex als c ∧ alleleIndex als c < als.length := by
+    0 ≤ allelicIndex als c ∧ allelicIndex als c < als.length := by
   rw [alleleIndex_of_mem h]
   exact ⟨Int.natCast_nonneg _, by exact_mod_cast List.idxOf_lt_length_of_mem h⟩
 
 theorem alleleChar_alleleIndex (gap : Char) {als : List Char} {c : Char} (h : c ∈ als) :
-    alleleChar gap als (alleleIndex als c) = some c := by
+    alleleChar gap als (allelicIndex als c) = some c := by
   rw [alleleIndex_of_mem h]
   unfold alleleChar
   have : ¬ (((als.idxOf c : ℕ) : ℤ) < 0) := by omega
   simp only [this, if_false, Int.toNat_natCast]
   exact List.getElem?_idxOf h
 
-theorem alleleIndex_head (c : Char) (cs : List Char) : alleleIndex (c :: cs) c = 0 := by
-  simp [alleleIndex]
+theorem alleleIndex_head (c : Char) (cs : List Char) : allelicIndex (c :: cs) c = 0 := by
+  simp [allelicIndex]
 
 /-- for a duplicate-free allele tuple the index of the `a`-th character is `a` -/
 theorem alleleIndex_getElem {als : List Char} (hn : als.Nodup) {a : ℕ} (ha : a < als.length) :
-    alleleIndex als als[a] = (a : ℤ) := by
+    allelicIndex als als[a] = (a : ℤ) := by
   have hm : als[a] ∈ als := List.getElem_mem ha
   rw [alleleIndex_of_mem hm]
   congr 1
